@@ -478,6 +478,27 @@ def image_laws(run, scenes, version: int, as_dict: bool) -> None:
                       {'input_order': [int(e.checksum) for e in xlist], 'table': table})
 
 
+    # multi-step history: rename entries of the parsed mapping in place.  The filename setter recomputes the entry's
+    # checksum, so the mapping keys are stale now; the container must still be sorted by the entries' checksums.
+    for i, e in enumerate(list(y.values())):
+        if i % 2 == 0:
+            e.filename = f'renamed/{i}_' + e.filename.replace('\\', '/').split('/')[-1]
+    crcs = [int(e.checksum) for e in y.values()]
+    if len(set(crcs)) == len(crcs):
+        w4 = _call('rewrite', lambda: save(y), w1)
+        table4 = image_table(w4)
+        run.count('image_renamed_resaves')
+        if table4 != sorted(table4):
+            raise Failure('sorted', 'entry table is not sorted by CRC after entries were renamed in place (stale mapping keys)',
+                          {'table': table4, 'keys': [int(k) for k in y]})
+        if sorted(table4) != sorted(crcs):
+            raise Failure('sorted', 'entry table CRCs differ from the renamed entries', {'table': table4})
+        z = _call('read', lambda: choreo.parse_scenes_image(io.BytesIO(w4)), w4)
+        w5 = _call('rewrite', lambda: save(z), w4)
+        if w5 != w4:
+            raise Failure('idempotence', 'save(parse(save(renamed))) differs' + _where(w4, w5))
+
+
 # =================================================================================================== sndscript
 def snd_write(sounds) -> str:
     buf = io.StringIO()
